@@ -692,6 +692,10 @@ class Ctx:
             return self.read_place(fr, l, proj)
         if s.startswith("const ") and s.endswith("}") and "{" in s and not s.startswith("const {"):
             return Opaque(s)
+        m = re.match(r"^const \{alloc\d+: &\[[^;\]]+; (\d+)\]\}$", s)
+        if m:
+            # reference to a static array: only its length is interpreted
+            return Tup([Opaque("static element")] * int(m.group(1)))
         if s.startswith("const "):
             c = s[6:].strip()
             if c == "true":
@@ -796,6 +800,15 @@ class Ctx:
                 d.cond = v.cond
                 return d
             raise Unsupported("discriminant of a value that is not a known variant")
+        m = re.match(r"^PtrMetadata\((.*)\)$", rv)
+        if m:
+            v = self.operand(fr, m.group(1))
+            if isinstance(v, Tup):
+                return I(len(v.items))
+            raise Unsupported("PtrMetadata of a non-array")
+        m = re.match(r"^(.*) as &\[[^\]]*\] \(PointerCoercion\(Unsize, \w+\)\)$", rv)
+        if m:
+            return self.operand(fr, m.group(1))
         m = re.match(r"^Len\((.*)\)$", rv)
         if m:
             l, proj = parse_place(m.group(1))
